@@ -41,7 +41,11 @@ CONSTANTS Src,      \* source chains
           Vars,     \* variants of a message with the same id
           Gated,    \* source chains whose router has a start block
           MaxH,     \* height classes 0..MaxH
-          EmitOn    \* "off" (model checking, trace validation), "edge" (print every edge)
+          EmitOn,   \* "off" (model checking, trace validation), "edge" (print every edge)
+          GovChains, \* chains for which Black / White / Register / Quit are explored
+          RelayOn,  \* TRUE: also explore relay transactions (two imports through NativeCall in one transaction)
+          Silent    \* sources whose router answers a resubmission of an already released message with success and no
+                    \* effect instead of an error (vote-based routers: late votes are ignored)
 
 VARIABLES registry, black, done, requests, leaves, height, ntx, obs, hist
 
@@ -58,15 +62,16 @@ GatesOk(s, t) == /\ s \notin black /\ s \in registry /\ Active(s)
                  /\ t \notin black /\ t \in registry
 
 \* the entrance's order of checks (diagnostic only; the verdict is Why = "ok")
-Why(s, i, t, ok) ==
+WhyIn(dn, s, i, t, ok) ==
     IF s \in black THEN "src-black"
     ELSE IF s \notin registry THEN "src-unregistered"
     ELSE IF ~Active(s) THEN "router-inactive"
     ELSE IF ~ok THEN "not-authentic"
-    ELSE IF <<s, i>> \in done THEN "already-done"
+    ELSE IF <<s, i>> \in dn THEN "already-done"
     ELSE IF t \in black THEN "dst-black"
     ELSE IF t \notin registry THEN "dst-unregistered"
     ELSE "ok"
+Why(s, i, t, ok) == WhyIn(done, s, i, t, ok)
 
 \* requests and leaves of the post-state are determined by the acc flags of the history (every accepted import adds
 \* MV(tx, s, i, t, v) to both, newblock empties the leaves); they are left out of the printed edge to keep it short.
@@ -111,26 +116,70 @@ NewBlock == /\ height' = IF height < MaxH THEN height + 1 ELSE height
             /\ UNCHANGED <<registry, black, done, requests, ntx>>
             /\ Record([act |-> "newblock"])
 
+
+(* A relay transaction: a contract (registered by the harness) performs two imports through NativeCall in ONE relay
+   transaction, optionally after committing a cross-state leaf of its own (pre) and optionally ignoring the error of
+   the second import (catch).  Both imports carry the same relay tx hash, hence different destinations (the request key
+   is (to, tx)).  A refused first import, or a refused second one that is not caught, fails the whole transaction.
+   Relayed second imports that a vote-based router would answer with "success, nothing done" (Silent) are left out: whether
+   the relay sees an error there is not part of C20-C22.
+   Second imports that would be refused only at the destination gates are left out: the handler has marked the message
+   done by then and only the failure of the whole transaction undoes that (entrance order, not a property of C20-C22). *)
+OwnLeaf(tx) == [tx |-> tx, src |-> "relay", id |-> "", to |-> "", var |-> 0]
+Relay(a, b, pre, catch) ==
+    LET tx   == ntx + 1
+        wa   == Why(a.s, a.i, a.t, a.ok)
+        dn1  == IF wa = "ok" THEN done \cup {<<a.s, a.i>>} ELSE done
+        wb   == WhyIn(dn1, b.s, b.i, b.t, b.ok)
+        txok == wa = "ok" /\ (wb = "ok" \/ catch)
+        accB == txok /\ wb = "ok"
+        mva  == MV(tx, a.s, a.i, a.t, a.v)
+        mvb  == MV(tx, b.s, b.i, b.t, b.v)
+    IN /\ RelayOn /\ a.ok /\ a.t # b.t /\ wb \notin {"dst-black", "dst-unregistered"}
+       /\ wa = "ok"    \* a refused first import just fails the transaction
+       /\ ~(b.s \in Silent /\ \E r \in requests : r.src = b.s /\ r.id = b.i /\ r.to = b.t /\ r.var = b.v)
+       /\ ntx' = tx
+       /\ IF txok
+          THEN /\ done' = dn1 \cup (IF accB THEN {<<b.s, b.i>>} ELSE {})
+               /\ requests' = requests \cup {mva} \cup (IF accB THEN {mvb} ELSE {})
+               /\ leaves' = leaves \o (IF pre THEN <<OwnLeaf(tx)>> ELSE <<>>) \o <<mva>> \o (IF accB THEN <<mvb>> ELSE <<>>)
+          ELSE UNCHANGED <<done, requests, leaves>>
+       /\ UNCHANGED <<registry, black, height>>
+       /\ Record([act |-> "relay", tx |-> tx, pre |-> pre, catch |-> catch, ok |-> txok,
+                  a |-> [s |-> a.s, i |-> a.i, t |-> a.t, v |-> a.v, ok |-> a.ok, acc |-> txok, why |-> wa],
+                  b |-> [s |-> b.s, i |-> b.i, t |-> b.t, v |-> b.v, ok |-> b.ok, acc |-> accB, why |-> wb]])
+Imps == [s : Src, i : Ids, t : Tgt, v : Vars, ok : BOOLEAN]
+
 Next == \/ \E s \in Src, i \in Ids, t \in Tgt, v \in Vars, ok \in BOOLEAN : Import(s, i, t, v, ok)
-        \/ \E c \in Chains : Black(c) \/ White(c) \/ Register(c) \/ Quit(c)
+        \/ \E c \in GovChains : Black(c) \/ White(c) \/ Register(c) \/ Quit(c)
         \/ NewBlock
+        \/ (RelayOn /\ \E a \in Imps, b \in Imps, pre \in BOOLEAN, catch \in BOOLEAN : Relay(a, b, pre, catch))
 
 Spec == Init /\ [][Next]_vars
 
 (* monitors (obs'.act = "init" only occurs when TraceCrossChain starts a new recorded run) ******************)
 IsImport(o) == o.act = "import"
+IsRelay(o)  == o.act = "relay"
+AccParts(o) == {p \in {o.a, o.b} : p.acc}
+SeqOf(S) == IF S = {} THEN <<>> ELSE LET x == CHOOSE y \in S : TRUE IN IF S = {x} THEN <<x>> ELSE <<x, CHOOSE y \in S : y # x>>
+SameBag(q1, q2) == /\ Len(q1) = Len(q2)
+                   /\ \A k \in 1..Len(q1) : Cardinality({j \in 1..Len(q1) : q1[j] = q1[k]}) = Cardinality({j \in 1..Len(q2) : q2[j] = q1[k]})
 
 \* C20: accepted at most once; a repeat fails without side effects; done is marked exactly on acceptance
 PropC20 == [][obs'.act = "init" \/ LET o == obs' IN
     /\ (IsImport(o) /\ o.acc) => (<<o.s, o.i>> \notin done /\ done' = done \cup {<<o.s, o.i>>})
     /\ (IsImport(o) /\ <<o.s, o.i>> \in done) => (~o.acc /\ state' = state)
     /\ (IsImport(o) /\ ~o.acc) => done' = done
-    /\ ~IsImport(o) => done' = done]_vars
+    /\ IsRelay(o) => /\ done' = done \cup {<<p.s, p.i>> : p \in AccParts(o)}
+                     /\ \A p \in AccParts(o) : <<p.s, p.i>> \notin done
+                     /\ (o.a.acc /\ o.b.acc) => <<o.a.s, o.a.i>> # <<o.b.s, o.b.i>>
+    /\ (~IsImport(o) /\ ~IsRelay(o)) => done' = done]_vars
 
 \* C21: gates; blacklisting effective for later imports, whitelisting restores
 PropC21 == [][obs'.act = "init" \/ LET o == obs' IN
     /\ (IsImport(o) /\ ~GatesOk(o.s, o.t)) => (~o.acc /\ state' = state)
     /\ (IsImport(o) /\ GatesOk(o.s, o.t) /\ o.ok /\ <<o.s, o.i>> \notin done) => o.acc
+    /\ IsRelay(o) => \A p \in {o.a, o.b} : ~GatesOk(p.s, p.t) => ~p.acc
     /\ o.act = "black" => black' = black \cup {o.c}
     /\ o.act = "white" => black' = black \ {o.c}
     /\ o.act \notin {"black", "white"} => black' = black]_vars
@@ -145,7 +194,14 @@ PropC22 == [][obs'.act = "init" \/ LET o == obs' IN
           /\ leaves' = Append(leaves, mv)
     /\ (IsImport(o) /\ ~o.acc) => (requests' = requests /\ leaves' = leaves)
     /\ o.act = "newblock" => (requests' = requests /\ leaves' = <<>>)
-    /\ o.act \notin {"import", "newblock"} => (requests' = requests /\ leaves' = leaves)]_vars
+    /\ IsRelay(o) =>   \* one request and one leaf per accepted import, the relay's own leaf untouched, order free
+          LET mvs == {MV(o.tx, p.s, p.i, p.t, p.v) : p \in AccParts(o)} IN
+          /\ \A p \in AccParts(o) : p.ok
+          /\ \A r \in requests : r.tx # o.tx
+          /\ requests' = requests \cup mvs
+          /\ Cardinality(mvs) = Cardinality(AccParts(o))
+          /\ SameBag(leaves', leaves \o (IF o.ok /\ o.pre THEN <<OwnLeaf(o.tx)>> ELSE <<>>) \o SeqOf(mvs))
+    /\ o.act \notin {"import", "newblock", "relay"} => (requests' = requests /\ leaves' = leaves)]_vars
 
 TypeOK == /\ registry \subseteq Chains /\ black \subseteq Chains
           /\ done \subseteq (Src \X Ids) /\ height \in 0..MaxH
